@@ -27,6 +27,7 @@ func vLog(tag string, v int)                    { panic("intrinsic") }
 func vLogS(tag string, s string)                { panic("intrinsic") }
 func vPanics(f func()) bool                     { panic("intrinsic") }
 func vSame(a, b any) bool                       { panic("intrinsic") }
+func vSameDeep(a, b any) bool                   { panic("intrinsic") }
 func vSig(name string, v int)                   { panic("intrinsic") }
 func vYield()                                   { panic("intrinsic") }
 func vMon(f func())                             { panic("intrinsic") }
